@@ -139,8 +139,12 @@ def run(rep, tier):
     rep.cov["observed_tables_through_interleaving_model"] = done
     # 4. the intended schedules (formulas in the shape) hold for every shape class; the real operators stay inside them
     vlib.sany("ZebraSchedule")
-    z = vlib.tlc("ZebraSchedule", os.path.join(vlib.SPEC, "ZebraSchedule_mc.cfg"), workers=8, heap="8g", tag="zebra", timeout=1500)
-    rep.add_tlc(z, "ZebraSchedule.tla: EpochDisjoint, AllRadialOnce, AllCirclesOnce for every shape nr in 5..12, ntheta in 4..24, 2..9 circles, both boundary modes")
+    zcfg = os.path.join(vlib.BUILD, "cfg", "zebra_%s.cfg" % tier)
+    znr, znt = ("{5,6,7,8,9,10,12}", "{4,6,8,10,12,16,20,24,28}") if thorough else ("{5,7,8,10}", "{4,6,8,12,16}")
+    open(zcfg, "w").write('SPECIFICATION Spec\nCONSTANTS\n  NrSet = %s\n  NtSet = %s\n  Ops = {"residualGive", "smootherTake", "xsmootherTake", "residualTake"}\n  EmitTables = FALSE\n'
+                          'INVARIANTS EpochDisjoint AllRadialOnce AllCirclesOnce\n' % (znr, znt))
+    z = vlib.tlc("ZebraSchedule", zcfg, workers=8, heap="8g", tag="zebra", timeout=3000)
+    rep.add_tlc(z, "ZebraSchedule.tla: EpochDisjoint, AllRadialOnce, AllCirclesOnce for every shape nr in %s, ntheta in %s, 2..9 circles, both boundary modes" % (znr, znt))
     if z.rc == 12:
         rep.violation("model:Zebra:" + z.violation, "ZebraSchedule.tla: %s violated\n%s" % (z.violation, vlib.counterexample(z)[:1200]), replay={"spec": "ZebraSchedule"})
     elif z.rc != 0:
@@ -158,7 +162,9 @@ def run(rep, tier):
             if err:
                 rep.violation("schedule:crash", err, replay={"shape": [nr, nt, nc, d]})
                 continue
-            for op in ("residualGive", "smootherTake"):
+            for op in oc.ZEBRA_OPS:
+                if op == "xsmootherTake" and not (nr % 2 == 1 and nt % 2 == 0):
+                    continue      # the extrapolated smoother exists only on grids that have a coarse grid
                 why = oc.contained(obs.get(op, []), tabs[(op, nr, nt, nc, bool(d))])
                 nops += 1
                 rep.case(key="ops_%s_%dx%d_c%d_d%d" % (op, nr, nt, nc, d), nontrivial=True)
